@@ -131,7 +131,7 @@ func isWakeCall(f *fn, call *ast.CallExpr) bool {
 	if flow.IsPkgFunc(f.Info, call, unixPkg, "Write") {
 		return true
 	}
-	if cf := flow.CalleeFunc(f.Info, call); cf != nil && cf.Name() == "wakePoller" && f.P.InModule(cf) {
+	if cf := flow.CalleeFunc(f.Info, call); cf != nil && nameOf(cf) == "wakePoller" && f.P.InModule(cf) {
 		return true
 	}
 	return false
